@@ -517,7 +517,7 @@ def mon_c02(tr: Trace) -> list[Violation]:
 def _budget(pol: dict | None) -> int | None:
     if pol is None:
         return 1
-    if pol["kind"] in ("attempts", "chain", "chain_exp", "legacy"):
+    if pol["kind"] in ("attempts", "chain", "chain_exp", "legacy", "incr", "exp"):
         return max(pol["n"], 1)
     return None
 
@@ -655,13 +655,82 @@ def mon_c05(tr: Trace) -> list[Violation]:
     return out
 
 
+C06_KINDS = ("attempts", "chain", "chain_exp", "legacy", "delay", "incr", "exp")
+
+
+def c06_documented(pol: dict, k: int) -> tuple[float, float]:
+    """(documented, code_index) for the k-th retry (k >= 1) of a policy spec, recomputed from the spec's numbers alone:
+    `documented` = what the wait strategy documents for that retry (tenacity's numbering, which the module mirrors: the
+    k-th retry uses index k-1: first link of a chain, `start` of wait_incrementing, `multiplier` of wait_exponential);
+    `code_index` = the value at index k, which the engine is known to use (open finding retry_delay_index_off_by_one)."""
+    kind = pol["kind"]
+    if kind == "chain":
+        ws = pol["waits"]
+        return ws[min(k - 1, len(ws) - 1)], ws[min(k, len(ws) - 1)]
+    if kind == "chain_exp":
+        # documented (0-based index k-1): first, then min(2**(k-1), 64); the engine passes index k
+        return (pol["first"] if k - 1 == 0 else min(2 ** (k - 1), 64)), min(2 ** k, 64)
+    if kind == "incr":
+        def f(i: int) -> float:
+            return max(0, min(pol.get("start", 0) + pol["inc"] * i, pol.get("max", 1000)))
+        return f(k - 1), f(k)
+    if kind == "exp":
+        def g(i: int) -> float:
+            return max(0, min(pol.get("mult", 1) * pol.get("base", 2) ** i, pol.get("max", 64)))
+        return g(k - 1), g(k)
+    w = pol.get("wait", 0)
+    return w, w
+
+
+def c06_invocations(tr: Trace) -> dict[tuple, list[dict]]:
+    """executions per invocation (step, input uid), in order: {rn, enter, exit, status, collect_calls}"""
+    runs: dict[tuple, list[dict]] = {}
+    open_: dict[tuple, list[dict]] = {}
+    for rec in tr.steps:
+        kind, step, uid, rn, vt, info = rec
+        key = (step, repr(uid))
+        if kind == "enter":
+            e = {"rn": rn, "enter": vt, "exit": None, "status": None, "collect_calls": []}
+            open_.setdefault(key, []).append(e)
+            runs.setdefault(key, []).append(e)
+        elif kind == "collect_call":
+            if open_.get(key):
+                open_[key][-1]["collect_calls"].append(info)
+        elif kind == "exit":
+            if open_.get(key):
+                e = open_[key].pop(0)
+                e["exit"], e["status"] = vt, info.get("status")
+    return runs
+
+
+def c06_rerun_shapes(tr: Trace) -> list[str]:
+    """input-distribution labels: collect re-runs of retried invocations and failures that follow them"""
+    out: list[str] = []
+    sdefs = {s["name"]: s for s in tr.spec["steps"]}
+    for (step, _uid), execs in c06_invocations(tr).items():
+        sd = sdefs.get(step) or {}
+        if not sd.get("retry") or "collect" not in [a[0] for a in sd["script"]]:
+            continue
+        f = rr = 0
+        for j, e in enumerate(execs):
+            st = e["status"] or ""
+            if st.startswith("raise:"):
+                f += 1
+                if rr and j + 1 < len(execs):
+                    out.append(f"failure_{min(f, 4)}_after_rerun_retried:{sd['retry']['kind']}")
+            elif e["exit"] is not None and st == "ok" and j + 1 < len(execs):
+                rr += 1
+                out.append(f"rerun_after_{min(f, 3)}_failures")
+    return out
+
+
 def mon_c06(tr: Trace) -> list[Violation]:
     out: list[Violation] = []
     sdefs = {s["name"]: s for s in tr.spec["steps"]}
     for (step, uid), execs in _lineages(tr).items():
         sd = sdefs.get(step)
         pol = (sd or {}).get("retry")
-        if sd is None or pol is None or pol["kind"] not in ("attempts", "chain", "chain_exp", "legacy", "delay"):
+        if sd is None or pol is None or pol["kind"] not in C06_KINDS:
             continue
         ops = [a[0] for a in sd["script"]]
         if any(o in ops for o in ("collect", "wait")):
@@ -670,22 +739,110 @@ def mon_c06(tr: Trace) -> list[Violation]:
             prev_fail, start = execs[k - 1][2], execs[k][1]
             if prev_fail is None:
                 continue
-            if pol["kind"] == "chain":
-                ws = pol["waits"]
-                documented = ws[min(k - 1, len(ws) - 1)]
-                code_index = ws[min(k, len(ws) - 1)]
-            elif pol["kind"] == "chain_exp":
-                # documented (0-based index k-1): first, then min(2**(k-1), 64); the engine passes index k
-                documented = pol["first"] if k - 1 == 0 else min(2 ** (k - 1), 64)
-                code_index = min(2 ** k, 64)
-            else:
-                documented = code_index = pol.get("wait", 0)
+            documented, code_index = c06_documented(pol, k)
             gap = start - prev_fail
             if gap + 1e-9 < documented:
                 if abs(gap - code_index) < 1e-9 or gap >= code_index:
                     out.append(Violation("C06/retry_delay_index_off_by_one", f"{step}: retry {k} started {gap}s after the failure; the strategy documents {documented}s for this retry (the engine used the value for index {k})", _replay(tr)))
                 else:
                     out.append(Violation("C06/retry_too_early", f"{step}: retry {k} started {gap}s after the failure, before the {documented}s delay (policy {pol})", _replay(tr)))
+    out += _c06_collecting(tr, sdefs)
+    out += _c06_failure_numbers(tr, sdefs)
+    return out
+
+
+def _c06_collecting(tr: Trace, sdefs: dict) -> list[Violation]:
+    """Steps that call collect_events.  An invocation whose collect_events call met a stale snapshot is run again by the
+    control loop although nothing failed: that execution is not a retry.  Retries are numbered by the FAILURES of the
+    invocation (its input event): the execution that follows failure k is retry k and starts no earlier than the delay
+    documented for retry k after that failure -- however many re-runs happened in between.  Everything is read off the
+    inputs: virtual-clock timestamps of the successive executions of one event and the policy's numbers in the spec."""
+    out: list[Violation] = []
+    for (step, uid), execs in c06_invocations(tr).items():
+        sd = sdefs.get(step)
+        pol = (sd or {}).get("retry")
+        if sd is None or sd.get("sync") or pol is None or pol["kind"] not in C06_KINDS:
+            continue
+        ops = [a[0] for a in sd["script"]]
+        if "collect" not in ops or "wait" in ops:
+            continue
+        failures = 0
+        reruns = 0
+        for i, e in enumerate(execs):
+            st = e["status"] or ""
+            nxt = execs[i + 1] if i + 1 < len(execs) else None
+            if e["exit"] is None or st == "cancelled":
+                break
+            if not st.startswith("raise:"):
+                if nxt is not None:
+                    reruns += 1  # ended without a failure and was run again: a collect re-run
+                continue
+            failures += 1
+            if e["collect_calls"]:
+                # the failure came after a collect_events call of the same execution: its result carries the collect
+                # result AND the failure; which of the two following executions is "the retry" is not decidable here
+                break
+            if nxt is None:
+                continue
+            gap = nxt["enter"] - e["exit"]
+            documented, code_index = c06_documented(pol, failures)
+            if gap + 1e-9 < documented:
+                if abs(gap - code_index) < 1e-9 or gap >= code_index:
+                    out.append(Violation("C06/retry_delay_index_off_by_one", f"{step}: retry {failures} started {gap}s after the failure; the strategy documents {documented}s for this retry (the engine used the value for index {failures})", _replay(tr)))
+                    continue
+                # classify: whose delay was it?  (the delay of an EARLIER retry = the numbering went back)
+                earlier = next((j for j in range(1, failures) if any(abs(gap - v) < 1e-9 for v in c06_documented(pol, j))), None)
+                sig = ("C06/retry_too_early" + (":after_collect_rerun" if reruns else ":collecting_step") +
+                       (":numbering_restarted" if earlier is not None else ""))
+                hist = [(x["status"], x["enter"], x["exit"]) for x in execs[: i + 2]]
+                out.append(Violation(sig, f"{step} uid={uid}: failure {failures} of this invocation at t={e['exit']} was followed by its retry {gap}s later, "
+                                          f"before the {documented}s documented for retry {failures} (index the engine uses: {code_index}s)"
+                                          + (f"; {gap}s is the delay of retry {earlier}" if earlier is not None else "")
+                                          + f"; {reruns} collect re-run(s) of the invocation before this failure (not retries); policy {pol}; "
+                                          f"executions (status, start, end): {hist}", _replay(tr)))
+    return out
+
+
+def _c06_failure_numbers(tr: Trace, sdefs: dict) -> list[Violation]:
+    """What the wait strategy is asked: at the k-th failure of an invocation the reducer consults the step's policy
+    (`next(elapsed, attempts, exc)`) for retry k, i.e. with attempts = k (1, 2, 3, ... along one input event).  Observed
+    at the policy boundary (RecordingPolicy), per result tick; failures counted from the ticks themselves."""
+    out: list[Violation] = []
+    if tr.spec.get("_resumed") or tr.spec.get("det_uids"):
+        return out
+    handed: dict[tuple, list[int]] = {}
+    for c in _runner_calls(tr):
+        if not isinstance(c.tick, T.TickStepResult) or c.error is not None:
+            continue
+        nfail = sum(1 for r in c.tick.result if isinstance(r, R.StepWorkerFailed))
+        if not nfail:
+            continue
+        key = (c.tick.step_name, repr(getattr(c.tick.event, "uid", None)))
+        for o in c.oracle:
+            if o[0] == c.tick.step_name:
+                handed.setdefault(key, []).append(o[2])
+    inv = None
+    for (step, uid), nums in handed.items():
+        sd = sdefs.get(step)
+        if sd is None or sd.get("sync") or sd.get("retry") is None:
+            continue
+        ops = [a[0] for a in sd["script"]]
+        if "wait" in ops:
+            continue  # suspensions and replays: C05's rules (retry_number_across_wait)
+        if nums != list(range(1, len(nums) + 1)):
+            if inv is None:
+                inv = c06_invocations(tr)
+            execs = inv.get((step, uid), [])
+            if any((x["status"] or "").startswith("raise:") and x["collect_calls"] for x in execs):
+                continue  # a result carrying a collect result AND a failure: see _c06_collecting
+            rerun = any(not (x["status"] or "").startswith("raise:") and x["exit"] is not None and x["status"] != "cancelled"
+                        for x in execs[:-1])
+            back = any(b <= a for a, b in zip(nums, nums[1:]))
+            sig = ("C06/failure_number_handed_to_policy" + (":went_back" if back else ":skipped") +
+                   (":after_collect_rerun" if ("collect" in ops and rerun) else ""))
+            out.append(Violation(sig, f"{step} uid={uid}: successive failures of this invocation were handed to the retry policy as attempts {nums}, "
+                                      f"expected {list(range(1, len(nums) + 1))} (the wait strategy indexes its delays by this number); "
+                                      f"executions {[(x['status'], x['enter']) for x in execs]}", _replay(tr)))
     return out
 
 
